@@ -50,13 +50,14 @@ def logs(lines, fiber):
 def classify(sc, got, exp):
     """Name the specific way F's resume list deviates (stable signature for known-finding matching)."""
     ex = sc.expect
+    ib = len(exp) - 2          # index of B's completion in the expected list
     # first deviation
     i = 0
     while i < len(got) and i < len(exp) and got[i][:2] == exp[i]:
         i += 1
     if i < len(got):
         t, v = got[i][0], got[i][1]
-        if i == 2 and t < ex["t_b"]:
+        if i == ib and t < ex["t_b"]:
             # F was resumed while blocked on B, before B's legitimate completion
             if v in ("cA", "(:give,cA)"):
                 return "stale-writer-resumed-by-take", "F blocked on B was resumed at tick %d with %s: a take on the abandoned channel popped F's stale pending-writer entry" % (t, v)
@@ -64,13 +65,19 @@ def classify(sc, got, exp):
                 return "stale-entry-resumed-by-close", "F blocked on B was resumed at tick %d with %s by ev/chan-close of the abandoned channel" % (t, v)
             if v in (":va", "(:take,cA,:va)"):
                 return "stale-reader-consumed-item", "item given on the abandoned channel was delivered to F (blocked on B) at tick %d" % t
+            if sc.meta.get("abandon") == "error" and ("deadline" in v or "timeout" in v):
+                return "timeout-of-failed-call-hit-next-wait", "A failed at once with an error, yet its timeout/deadline stayed armed: F, blocked on B, was cancelled at tick %d with %s" % (t, v)
+            if sc.meta.get("abandon") == "immediate" or (v in ("cB", "(:give,cB)") and sc.meta.get("dirt", "none") != "none"):
+                return "immediate-select-left-registration", "a select that returned at once left a live pending registration: F was resumed at tick %d with %s" % (t, v)
             if "deadline" in v or "timeout" in v:
                 return "stale-timer-fired", "F blocked on B was cancelled at tick %d by an abandoned timeout/deadline (%s)" % (t, v)
             return "resumed-by-stale-registration", "F blocked on B was resumed at tick %d with %s (not B's completion)" % (t, v)
-        if i == 2 and v == "(:give,cA)" and sc.meta.get("B") == "same":
+        if i == ib and v == "(:give,cA)" and sc.meta.get("B") == "same":
             return "stale-writer-resumed-by-take", "F's plain (ev/give cA ..) returned (:give cA): the take popped the stale select-writer entry F left on cA, not F's current registration (value of the next wait altered)"
-        if i == 2:
-            return "wrong-value-from-next-wait", "B completed at tick %d with %s, expected %s at %d" % (t, v, exp[2][1], exp[2][0])
+        if i == ib:
+            return "wrong-value-from-next-wait", "B completed at tick %d with %s, expected %s at %d" % (t, v, exp[ib][1], exp[ib][0])
+        if i == 1 and len(exp) == 4 and sc.meta.get("A") in ("selgive", "seltake") and v.startswith("(:give"):
+            return "immediate-select-left-registration", "select give clause completed at tick %d with %s although only abandoned readers were registered on the channel" % (t, v)
         return "resume-list-differs", "resume #%d of F is (%d, %s), expected %s" % (i, t, v, exp[i] if i < len(exp) else None)
     return "missing-resume", "F was resumed only %d times, expected %d (never resumed by %s)" % (len(got), len(exp), exp[len(got)])
 
@@ -86,10 +93,17 @@ def check(sc, res):
         probs.append(classify(sc, got, exp))
     else:
         fl = logs(lines, "F")
-        if fl.get("f0", (0, None))[1] != ex["a_log"]:
+        if ex["a_log"] == "ERR":
+            if not str(fl.get("f0", (0, ""))[1]).startswith("(:err,"):
+                probs.append(("a-result", "the invalid call A returned %r, expected an error" % (fl.get("f0"),)))
+        elif fl.get("f0", (0, None))[1] != ex["a_log"]:
             probs.append(("a-result", "A returned %r expected %r" % (fl.get("f0"), ex["a_log"])))
         if fl.get("f1", (0, None))[1] != ex["b_log"]:
             probs.append(("b-result", "B returned %r expected %r" % (fl.get("f1"), ex["b_log"])))
+    for f, want in ex.get("others", {}).items():
+        g = [x[:2] for x in resumes(lines, f)]
+        if g != [tuple(w) for w in want] and not probs:
+            probs.append(("bystander-resumed", "fiber %s (abandoned its wait at tick 0, blocked elsewhere) resumed %r, expected %r" % (f, g, want)))
     # generation counter as observed: strictly increasing per fiber over executed tasks
     last = {}
     for l in lines:
